@@ -5,6 +5,7 @@
 package c15
 
 import (
+	"context"
 	"fmt"
 	"math/rand"
 	"sort"
@@ -214,14 +215,39 @@ func clientCase(sc clScenario) (term, text string, tags []string, err error) {
 			opT, opX = "OReplace", "Replace"
 		}
 		if paniced {
+			// a crash is not a rejection: the observation keeps it as an error (so the
+			// rest of the case stays comparable) and the case is reported as an
+			// implementation failure by the caller
 			opErr = fmt.Errorf("panic")
 			opX += "(PANIC)"
+			tags = append(tags, "client:PANIC")
 		}
 		reqs := cs.newRequests()
 		pk, keys := cs.storedKeys()
 		got, gerr := cs.client.GetClusterObjs(localInv())
 		if extra := cs.newRequests(); len(extra) > 0 {
 			reqs = append(reqs, "GetClusterObjs sent "+strings.Join(extra, ","))
+		}
+		// the other reader of stored inventories: ListClusterInventoryObjs (name -> identifiers)
+		var listed map[string]object.ObjMetadataSet
+		var lerr error
+		if guard(func() { listed, lerr = cs.client.ListClusterInventoryObjs(context.TODO()) }) {
+			lerr = fmt.Errorf("panic")
+		}
+		if extra := cs.newRequests(); len(extra) > 0 {
+			reqs = append(reqs, "ListClusterInventoryObjs sent "+strings.Join(extra, ","))
+		}
+		listT, listX := "(@Err (option (list oid)))", "ERR"
+		if lerr == nil {
+			entry, has := listed[clInvName]
+			switch {
+			case !has && len(listed) == 0:
+				listT, listX = "(Ok (@None (list oid)))", "none"
+			case has && len(listed) == 1:
+				listT, listX = emit.App("Ok", emit.App("Some", oids(entry))), shorts(entry)
+			default:
+				listX = fmt.Sprintf("unexpected entries %d", len(listed))
+			}
 		}
 		tag := "client:merge"
 		if op.kind == clReplace {
@@ -252,9 +278,9 @@ func clientCase(sc clScenario) (term, text string, tags []string, err error) {
 			rt[i] = reqTerm(r)
 		}
 		steps = append(steps, emit.App("mkCStep", opT, dryTerm(op.dry), oids(op.objs),
-			emit.Bool(opErr != nil), emit.List(rt), optKeys(pk, keys), oids(prune), resOids(got, gerr)))
-		txt = append(txt, fmt.Sprintf("%s[dry=%s]%s=%s reqs=%q stored=%s prune=%s next-run-loads=%s",
-			opX, dryText(op.dry), shorts(op.objs), errS(opErr), reqs, keysText(pk, keys), shorts(prune), getText(got, gerr)))
+			emit.Bool(opErr != nil), emit.List(rt), optKeys(pk, keys), oids(prune), resOids(got, gerr), listT))
+		txt = append(txt, fmt.Sprintf("%s[dry=%s]%s=%s reqs=%q stored=%s prune=%s next-run-loads=%s listed=%s",
+			opX, dryText(op.dry), shorts(op.objs), errS(opErr), reqs, keysText(pk, keys), shorts(prune), getText(got, gerr), listX))
 	}
 	term = emit.App("CClient", polT, initT, optKeys(p0, k0), resOids(g0, g0err), emit.List(steps))
 	text = fmt.Sprintf("CLIENT policy=%s cluster-inventory=%s stored=%s loads=%s ; %s", polX, initX, keysText(p0, k0), getText(g0, g0err), strings.Join(txt, " ; "))
@@ -373,6 +399,9 @@ func runClient(o *out, r *rand.Rand, tier string, pool []object.ObjMetadata) err
 		}
 		for _, t := range tags {
 			o.sum.Count(t)
+			if t == "client:PANIC" && len(o.sum.ImplFailures) < 5 {
+				o.sum.ImplFailures = append(o.sum.ImplFailures, "panic in an operation of the inventory client: "+text)
+			}
 		}
 		return sh.add(term, text, true, kind)
 	}
